@@ -109,7 +109,7 @@ def candidates(m, allowed):
     add('items', m.cap_items != 'no' and m.keys is not None, weight=2)
     add('tile', not un)
     add('cache_lazy', m.indexable)
-    add('cache_eager', not hr and not un and m.cap_items != 'opt')
+    add('cache_eager', not hr and not un and m.cap_items != 'opt' and not (m.taint and m.cap_items != 'req'))
     add('catch', m.indexable and m.sized)
     add('copy')
     add('prefetch', True)
